@@ -661,18 +661,15 @@ impl<RW: QueueRW<T>, T> FutInnerRecv<RW, T> {
     #[inline(always)]
     pub fn try_recv(&self) -> Result<T, TryRecvError> {
         let rval = self.reader.try_recv();
-        if rval.is_ok() {
-            self.prod_wait.notify_all();
-        }
+        // also after a failed try: it may have pinned and released a slot a sender wants
+        self.prod_wait.notify_all();
         rval
     }
 
     #[inline(always)]
     pub fn recv(&self) -> Result<T, RecvError> {
         let rval = self.reader.recv();
-        if rval.is_ok() {
-            self.prod_wait.notify_all();
-        }
+        self.prod_wait.notify_all();
         rval
     }
 
@@ -832,6 +829,9 @@ impl<RW: QueueRW<T>, T> Stream for &FutInnerRecv<RW, T> {
                 }
                 Err((_, TryRecvError::Disconnected)) => return Ok(Async::Ready(None)),
                 Err((pt, _)) => {
+                    // The failed try may have pinned a slot and released it again after a
+                    // sender found it pinned, reported Full and parked: wake the senders
+                    self.prod_wait.notify_all();
                     let count = self.reader.reader.load_count(Relaxed);
                     // see InnerRecv::recv
                     if !self.reader.queue.is_slot_of(count, pt) {
